@@ -261,6 +261,29 @@ def restricted_sweep(col, fmt):
     col.exhaustive.setdefault(sub, True)
 
 
+def nearmiss_sweep(col, background):
+    """Every single-byte corruption of every signature, alone and next to an
+    intact second signature: the corrupted format must not be reported."""
+    from vcheck import imggen
+    sub = 'nearmiss'
+    for name, (off, sig, need) in imggen.SIGNATURES.items():
+        for idx in range(len(sig)):
+            for other in (None, 'gpt', 'vdi'):
+                if other == name:
+                    continue
+                for length in (max(need, 600) + 5, 300000):
+                    if length == 300000 and name not in ('vhdx', 'iso'):
+                        continue
+                    sigs = [name] + ([other] if other else [])
+                    content = {'overlay': dict(
+                        length=length, background=background, sigs=sigs,
+                        fill=3, corrupt={name: idx}), 'kind': 'polyglot'}
+                    check_detection(col, {'content': content, 'allowed': None,
+                                          'schedule': ['fixed', 4096],
+                                          'mode': 'read'}, sub)
+    col.exhaustive.setdefault(sub, True)
+
+
 def detect_sweep(col, background):
     """detect_file_format on every signature subset at three lengths
     (below / above the point where every inspector is complete)."""
@@ -358,6 +381,8 @@ def tasks(tier, seed):
         out.append(Task('detect_file', detect_sweep, background=bg))
     for fmt in sigmodel.NON_RAW:
         out.append(Task('restricted', restricted_sweep, fmt=fmt))
+    for bg in ('zero', 'random'):
+        out.append(Task('nearmiss', nearmiss_sweep, background=bg))
     if tier == 'quick':
         plan = [(SMALL + ('iso',), 70000, 500, 5), (('vhdx',), 400000, 60,
                                                      2)]
